@@ -1029,12 +1029,15 @@ def tile_source_close_levels(spec, chain):
 
 
 def cascade_world_extent_in_regional_srs(spec, chain):
-    """True for a cascade whose upper cache has a global grid while the cache below it has a grid in a regional
-    projected SRS: the loader intersects the two extents in the regional SRS, where the world bbox is meaningless."""
+    """True for a cascade whose upper cache has a global grid while the extent of the cache below it is given in a
+    regional projected SRS (its grid's, or that of the source coverage, which takes precedence): the loader
+    intersects the two extents in the regional SRS, where the world bbox is meaningless."""
+    cov = chain['source'].get('coverage')
     for upper, lower in zip(chain['grids'], chain['grids'][1:]):
         gu, gl = spec['grids'][upper], spec['grids'][lower]
+        lower_srs = cov['srs'] if cov else gl['srs']
         if gu['srs'] in confgen.GLOBAL_BBOX and list(gu['bbox']) == confgen.GLOBAL_BBOX[gu['srs']] \
-                and gl['srs'] in confgen.PROJECTED_REGIONAL:
+                and lower_srs in confgen.PROJECTED_REGIONAL:
             return True
     return False
 
